@@ -15,7 +15,6 @@ import (
 	"time"
 
 	"github.com/google/licenseclassifier/stringclassifier"
-	"github.com/google/licenseclassifier/stringclassifier/searchset"
 )
 
 // C15, step 2 — every archive written by the real ArchiveLicenses (step 1,
@@ -30,12 +29,24 @@ type vArchiveDesc struct {
 
 var vReadOnce sync.Once
 
+// vCurrentArchive: index of the archive whose synthetic files are served (the
+// shared name has a different text in every archive); guarded by vArchiveMu.
+var (
+	vArchiveMu      sync.Mutex
+	vCurrentArchive = -1
+)
+
 // vInstallReader serves synthetic license files written by step 1.
 func vInstallReader(scratch string) {
 	vReadOnce.Do(func() {
 		orig := ReadLicenseFile
 		ReadLicenseFile = func(name string) ([]byte, error) {
 			if strings.HasPrefix(name, "Syn") {
+				if vCurrentArchive >= 0 {
+					if b, err := os.ReadFile(filepath.Join(scratch, "c15", "files", fmt.Sprintf("a%03d_%s", vCurrentArchive, name))); err == nil {
+						return b, nil
+					}
+				}
 				return os.ReadFile(filepath.Join(scratch, "c15", "files", name))
 			}
 			return orig(name)
@@ -51,7 +62,10 @@ func vNormLicense(text string) string {
 	return s
 }
 
-// vDirect builds a License without going through an archive.
+// vDirect builds a License without going through an archive: every license is
+// registered with AddValue on its (trailing-text-trimmed) raw text, so that the
+// classifier's own normalisers are applied exactly once and the search sets are
+// built lazily - the way a caller would build a classifier "directly".
 func vDirect(thr float64, names []string) (*License, map[string]string, error) {
 	sc := stringclassifier.New(thr, Normalizers...)
 	norms := map[string]string{}
@@ -60,10 +74,9 @@ func vDirect(thr float64, names []string) (*License, map[string]string, error) {
 		if err != nil {
 			return nil, nil, err
 		}
-		s := vNormLicense(string(c))
 		key := strings.TrimSuffix(n, ".txt")
-		norms[key] = s
-		if err := sc.AddPrecomputedValue(key, s, searchset.New(s, searchset.DefaultGranularity)); err != nil {
+		norms[key] = vNormLicense(string(c))
+		if err := sc.AddValue(key, TrimExtraneousTrailingText(string(c))); err != nil {
 			return nil, nil, err
 		}
 	}
@@ -112,6 +125,15 @@ func TestVerifC15(t *testing.T) {
 		e.run(idx, "roundtrip-"+d.Kind, map[string]interface{}{"archive": filepath.Base(d.File), "licenses": len(d.Names)}, func(cs *vCase) {
 			r := cs.rng
 			thr := []float64{0.8, 0.8, 0.9, 0.5}[idx%4]
+			if d.Kind == "synthetic" || d.Kind == "mixed" {
+				// the shared synthetic name resolves per archive: one such case at a time
+				vArchiveMu.Lock()
+				defer vArchiveMu.Unlock()
+				var ai int
+				fmt.Sscanf(filepath.Base(d.File), "arch_%d.db", &ai)
+				vCurrentArchive = ai
+				defer func() { vCurrentArchive = -1 }()
+			}
 			ab, err := os.ReadFile(d.File)
 			if err != nil {
 				cs.inconclusive("cannot read archive: %v", err)
